@@ -8,6 +8,7 @@
  *     s == NULL  =>  len == size == 0
  *     otherwise  s is the start of a heap block, 0 <= len < size <= allocated size, s[len] == 0, no NUL before len
  *     get_len()/get_size() report the fields
+ * and the spare capacity s[len+1 .. size) is then overwritten with alphabet characters (see poison_slack).
  * All C-string / buffer arguments are exact-size heap copies, so ASan's redzone sits right behind the last byte.
  * Every method is called through the public function of the class (spif_str_X / spif_ustr_X); at start-up every slot
  * of the class table is compared with the address of that public function (table wiring).
@@ -129,8 +130,21 @@ static const char *check_obj(S o, const char *who) {
     return NULL;
 }
 
+/* Capacity bytes behind the terminator have no defined content: after every step they are overwritten with characters
+ * of the model alphabets (phase = step number), so that code which reads beyond the terminator - a search or compare
+ * given size instead of len, a copy that trusts stale bytes - produces a wrong VALUE, not only an ASan report.
+ * s[len] itself is never touched.  Called only after check_obj() has established len < size <= allocation. */
+static unsigned long step_no;
+static void poison_slack(S o) {
+    static const unsigned char pat[] = {97, 66, 32, 55, 9, 200, 65, 98};
+    spif_stridx_t k;
+    if (!o->s) return;
+    for (k = o->len + 1; k < o->size; k++) o->s[k] = (char) pat[(step_no + (unsigned long) k) % sizeof(pat)];
+}
+
 static const char *project(vh_sb *state) {
     int i; const char *inv;
+    step_no++;
     sb_putc(state, '{');
     for (i = 0; i < 2; i++) {
         sb_puts(state, i ? ",b={live=" : "a={live=");
@@ -140,6 +154,7 @@ static const char *project(vh_sb *state) {
             sb_puts(state, "T,s=");
             sb_bytes(state, (const unsigned char *) slot[i]->s, (size_t) slot[i]->len);
             sb_putc(state, '}');
+            poison_slack(slot[i]);
         }
     }
     sb_putc(state, '}');
